@@ -1273,3 +1273,191 @@ Example live_fresh_satisfiable :
   live_fresh 1 init [Start 1 false false; Start 2 false false; Pull; Cancel 2; Complete 1; Recv 1; Delete 1;
                      Start 1 false true; Cancel 1; Delete 1] = true.
 Proof. vm_compute. reflexivity. Qed.
+
+(* ------------------------------------------------------------------ *)
+(* LOCK DISCIPLINE around the sends on StateChan ([exec] / [lrun])     *)
+(* ------------------------------------------------------------------ *)
+
+Lemma harmless_can_acq ps l m : Forall harmless ps -> can_acq ps l m = true.
+Proof.
+  intros H. assert (E : forall f, (forall p, harmless p -> f p = false) -> existsb f ps = false).
+  { intros f Hf. induction H; simpl; [reflexivity|]. rewrite (Hf _ H), IHForall. reflexivity. }
+  destruct m; simpl; rewrite E; try reflexivity; intros p [Hh [q Hw]];
+    unfold holds_l, holds_w, waits_w; rewrite Hh, Hw; reflexivity.
+Qed.
+
+(* a script that keeps the discipline either runs to its end or parks holding nothing *)
+Lemma exec_disciplined full ps : Forall harmless ps ->
+  forall sc held, sends_unlocked full held sc = true ->
+  exec full ps held sc = None \/ exists q, exec full ps held sc = Some (mkP [] (WSend q)).
+Proof.
+  intros Hps. induction sc as [|a r IH]; intros held Hd; simpl in *; [left; reflexivity|].
+  destruct a as [l m|l|q].
+  - rewrite (harmless_can_acq ps l m Hps). apply IH. exact Hd.
+  - apply IH. exact Hd.
+  - apply andb_true_iff in Hd. destruct Hd as [Hq Hr].
+    destruct (full q) eqn:Fq.
+    + simpl in Hq. destruct held; [|discriminate]. right. exists q. reflexivity.
+    + apply IH. exact Hr.
+Qed.
+
+Lemma lstep_harmless ps fs : Forall harmless ps -> sends_unlocked (fst fs) [] (snd fs) = true ->
+  Forall harmless (lstep ps fs).
+Proof.
+  intros Hps Hd. unfold lstep.
+  destruct (exec_disciplined (fst fs) ps Hps (snd fs) [] Hd) as [E|[q E]]; rewrite E; [exact Hps|].
+  apply Forall_app. split; [exact Hps|]. constructor; [|constructor].
+  split; [reflexivity|]. exists q. reflexivity.
+Qed.
+
+(* for ANY scripts (whatever code they come from) that keep the discipline: every goroutine that
+   is parked holds no lock and waits for a receiver *)
+Theorem parked_senders_hold_no_lock : forall steps,
+  Forall (fun fs => sends_unlocked (fst fs) [] (snd fs) = true) steps ->
+  Forall harmless (lrun [] steps).
+Proof.
+  intros steps. unfold lrun. assert (G : forall ps, Forall harmless ps ->
+    Forall (fun fs => sends_unlocked (fst fs) [] (snd fs) = true) steps ->
+    Forall harmless (fold_left lstep steps ps)).
+  { induction steps as [|fs r IH]; intros ps Hps Hs; simpl; [exact Hps|].
+    inversion Hs; subst. apply IH; [apply lstep_harmless; assumption|assumption]. }
+  apply G. constructor.
+Qed.
+
+
+(* ... and then a script whose own channels are not full runs to its end *)
+Lemma exec_completes full ps : Forall harmless ps ->
+  forall sc held, targets_not_full full sc = true -> exec full ps held sc = None.
+Proof.
+  intros Hps. induction sc as [|a r IH]; intros held Ht; simpl in *; [reflexivity|].
+  apply andb_true_iff in Ht. destruct Ht as [Ha Hr]. destruct a as [l m|l|q].
+  - rewrite (harmless_can_acq ps l m Hps). apply IH. exact Hr.
+  - apply IH. exact Hr.
+  - apply negb_true_iff in Ha. rewrite Ha. apply IH. exact Hr.
+Qed.
+
+(* the functions of querystatus.go keep the discipline (guard [lop_ok]: a query is started on a
+   channel that is not full; no QUERY_UPDATE from IncProgressForRRCCmd / SetPipeResp) *)
+Lemma release_rqs_self q m : release (LRqs q) [(LRqs q, m)] = [].
+Proof. unfold release. simpl. rewrite N.eqb_refl. reflexivity. Qed.
+
+Lemma code_scripts_disciplined full o : lop_ok full o = true -> sends_unlocked full [] (script o) = true.
+Proof.
+  destruct o as [q f c|h|q w|q|q|q w|q|q|q|q|q|]; simpl; intros H.
+  - destruct f, c; simpl in *; rewrite ?N.eqb_refl; simpl;
+      try (apply negb_true_iff in H; rewrite H); reflexivity.
+  - destruct h as [q|]; simpl; [|reflexivity]. rewrite H. reflexivity.
+  - destruct w; simpl; rewrite ?N.eqb_refl; simpl; rewrite ?orb_true_r; reflexivity.
+  - simpl. rewrite ?N.eqb_refl. simpl. rewrite ?orb_true_r. reflexivity.
+  - rewrite orb_true_r. reflexivity.
+  - destruct w; simpl; rewrite ?N.eqb_refl; reflexivity.
+  - rewrite orb_true_r. reflexivity.
+  - rewrite ?N.eqb_refl. simpl. rewrite orb_true_r. reflexivity.
+  - discriminate.
+  - rewrite ?N.eqb_refl. reflexivity.
+  - rewrite ?N.eqb_refl. reflexivity.
+  - reflexivity.
+Qed.
+
+Lemma code_steps_disciplined steps :
+  forallb (fun fo => lop_ok (fst fo) (snd fo)) steps = true ->
+  Forall (fun fs => sends_unlocked (fst fs) [] (snd fs) = true) (code_steps steps).
+Proof.
+  induction steps as [|fo r IH]; simpl; intros H; [constructor|].
+  apply andb_true_iff in H. destruct H as [H1 H2]. constructor; [|apply IH; exact H2].
+  simpl. apply code_scripts_disciplined. exact H1.
+Qed.
+
+(* MAIN: in the model of the code, whatever channels are full at whatever moment and whatever
+   was called in whatever order, every parked goroutine holds no lock ... *)
+Theorem code_parked_hold_no_lock : forall steps,
+  forallb (fun fo => lop_ok (fst fo) (snd fo)) steps = true ->
+  Forall harmless (lrun [] (code_steps steps)).
+Proof. intros steps H. apply parked_senders_hold_no_lock, code_steps_disciplined, H. Qed.
+
+(* ... so a full channel of one query never blocks an operation whose own channels are not full
+   (operations on other queries, and the accessors of the blocked query itself) *)
+Theorem full_channel_blocks_no_other_query : forall steps full' o',
+  forallb (fun fo => lop_ok (fst fo) (snd fo)) steps = true ->
+  targets_not_full full' (script o') = true ->
+  exec full' (lrun [] (code_steps steps)) [] (script o') = None.
+Proof.
+  intros steps full' o' H Ht. apply exec_completes; [|exact Ht].
+  apply code_parked_hold_no_lock. exact H.
+Qed.
+
+
+Lemma other_query_targets_not_full full o :
+  forallb (fun q => negb (full q)) (lop_qids o) = true -> targets_not_full full (script o) = true.
+Proof.
+  destruct o as [q f c|h|q w|q|q|q w|q|q|q|q|q|]; simpl; intros H;
+    try (rewrite andb_true_r in H);
+    try (destruct f, c); try (destruct w); try (destruct h); simpl in *;
+    try (rewrite andb_true_r in H); rewrite ?H; reflexivity.
+Qed.
+
+Theorem full_channel_blocks_no_operation_on_other_queries : forall steps full' o',
+  forallb (fun fo => lop_ok (fst fo) (snd fo)) steps = true ->
+  forallb (fun q => negb (full' q)) (lop_qids o') = true ->
+  exec full' (lrun [] (code_steps steps)) [] (script o') = None.
+Proof.
+  intros. apply full_channel_blocks_no_other_query; [assumption|].
+  apply other_query_targets_not_full. assumption.
+Qed.
+
+(* CancelQuery (called directly or by the timeout watcher) holds no lock at its send, nor does the
+   watcher at its TIMEOUT send *)
+Theorem cancel_send_holds_no_lock : forall q w,
+  Forall (fun x => snd x = []) (held_at_sends [] (script (LCancel q w))) /\
+  Forall (fun x => snd x = []) (held_at_sends [] (script (LTimeoutCancel q))) /\
+  Forall (fun x => snd x = []) (held_at_sends [] (script (LTimeoutSend q))).
+Proof.
+  intros q w. split; [destruct w|split]; simpl; rewrite ?N.eqb_refl; simpl; repeat constructor.
+Qed.
+
+
+(* non-vacuity: a history that meets the guard, with a canceller, a timeout watcher and an executor
+   parked on the full channel of query 1 while query 2 is started, admitted, cancelled, deleted *)
+Example lock_guard_satisfiable :
+  let steps := [(nonefull, LStart 1 true false); (only 1, LCancel 1 InRun); (only 1, LTimeoutCancel 1);
+                (only 1, LTimeoutSend 1); (only 1, LExecSend 1); (only 1, LNestedAccessor 1); (only 1, LAccessor 1);
+                (only 1, LStart 2 false true); (only 1, LPull (Some 2)); (only 1, LCancel 2 InRun);
+                (only 1, LDelete 2 InRun); (only 1, LCount)]%N in
+  forallb (fun fo => lop_ok (fst fo) (snd fo)) steps = true /\
+  lrun [] (code_steps steps) = [mkP [] (WSend 1); mkP [] (WSend 1); mkP [] (WSend 1); mkP [] (WSend 1)]%N.
+Proof. vm_compute. split; reflexivity. Qed.
+
+(* REFUTED for a send under the query's lock ("rqsLock.Lock(); defer rqsLock.Unlock()" in
+   CancelQuery): the canceller parks holding rqsLock of query 1, a worker of query 1 that calls
+   Get/SetAllColsInAggsForQid parks holding arqMapLock.RLock, StartQuery of query 2 parks waiting
+   for arqMapLock, and then not even GetActiveQueryCount gets through *)
+Theorem send_under_query_lock_refuted :
+  exists full q q', q <> q' /\ full q' = false /\
+    sends_unlocked full [] (cancel_script true q InRun) = false /\
+    held_at_sends [] (cancel_script true q InRun) = [(q, [(LRqs q, Wr)])] /\
+    let ps := lrun [] [(full, cancel_script true q InRun); (full, script (LNestedAccessor q))] in
+    ps = [mkP [(LRqs q, Wr)] (WSend q); mkP [(LArq, Rd)] (WAcq (LRqs q) Wr)] /\
+    exec full ps [] (script (LStart q' false false)) = Some (mkP [] (WAcq LArq Wr)) /\
+    let ps' := lstep ps (full, script (LStart q' false false)) in
+    exec full ps' [] (script LCount) = Some (mkP [] (WAcq LArq Rd)) /\
+    exec full ps' [] (script (LDelete q' InWait)) <> None /\
+    exec full ps' [] (script (LPull None)) <> None.
+Proof.
+  exists (only 1%N), 1%N, 2%N. vm_compute. repeat split; try reflexivity; discriminate.
+Qed.
+
+(* the same chain starts from the QUERY_UPDATE that IncProgressForRRCCmd / SetPipeResp send while
+   they hold rqsLock (this IS the code: the guard [lop_ok] excludes it) *)
+Theorem progress_send_under_query_lock_refuted :
+  exists full q q', q <> q' /\ full q' = false /\
+    lop_ok full (LProgressSend q) = false /\
+    held_at_sends [] (script (LProgressSend q)) = [(q, [(LRqs q, Wr)])] /\
+    let ps := lrun [] (code_steps [(full, LProgressSend q); (full, LNestedAccessor q)]) in
+    exec full ps [] (script (LStart q' false false)) = Some (mkP [] (WAcq LArq Wr)) /\
+    exec full (lstep ps (full, script (LStart q' false false))) [] (script LCount) <> None /\
+    (* without the nested accessor only the callers that need rqsLock of q itself wait *)
+    exec full (lrun [] (code_steps [(full, LProgressSend q)])) [] (script (LStart q' false false)) = None /\
+    exec full (lrun [] (code_steps [(full, LProgressSend q)])) [] (script (LCancel q InRun)) = Some (mkP [] (WAcq (LRqs q) Wr)).
+Proof.
+  exists (only 1%N), 1%N, 2%N. vm_compute. repeat split; try reflexivity; discriminate.
+Qed.
